@@ -48,6 +48,41 @@ pub fn gen_query(rng: &mut Rng, w: &Cub, class: &str) -> Coord2 {
 
 struct Ctx { stats: Stats, hangs: BTreeMap<String, u64> }
 
+/// Schneider's degree-5 control polygon of (C(t) - q).C'(t), computed here (the library's own construction is private)
+fn quintic_polygon(w: &Cub, q: Coord2) -> [Coord2; 6] {
+    let z = [[1.0, 0.6, 0.3, 0.1], [0.4, 0.6, 0.6, 0.4], [0.1, 0.3, 0.6, 1.0]];
+    let mut c = [0.0; 6];
+    for j in 0..3 { for i in 0..4 { let d = (w[j + 1] - w[j]) * 3.0; let o = w[i] - q; c[i + j] += (d.0 * o.0 + d.1 * o.1) * z[j][i]; } }
+    let mut a = [Coord2(0.0, 0.0); 6];
+    for k in 0..6 { a[k] = Coord2(k as f64 / 5.0, c[k]); }
+    a
+}
+
+/// MEASUREMENT (counters only, never a failure): the hypothesis the Lean theorem `nearest_t_within` names (`FlatLeavesWithin`): every
+/// sign change of the quintic in (0,1) (found on a 1/2000 grid, refined by bisection) against the values the public
+/// find_bezier_roots returns for that quintic
+fn measure_root_completeness(cx: &mut Ctx, w: &Cub, q: Coord2) {
+    let a = quintic_polygon(w, q);
+    let roots = match catch(|| find_bezier_roots::<Coord2, 6>(a)) { Ok(r) => r, Err(_) => { cx.stats.count("quintic.find_bezier_roots_panicked"); return; } };
+    let ev = |t: f64| -> f64 { let mut v: Vec<f64> = a.iter().map(|p| p.1).collect(); while v.len() > 1 { v = v.windows(2).map(|x| x[0] * (1.0 - t) + x[1] * t).collect(); } v[0] };
+    let n = 2000;
+    let mut prev = ev(0.0);
+    for k in 1..=n {
+        let (t0, t1) = ((k - 1) as f64 / n as f64, k as f64 / n as f64);
+        let cur = ev(t1);
+        if (prev < 0.0) != (cur < 0.0) && k > 1 && k < n {
+            let (mut lo, mut hi) = (t0, t1);
+            for _ in 0..60 { let m = 0.5 * (lo + hi); if (ev(m) < 0.0) == (prev < 0.0) { lo = m; } else { hi = m; } }
+            let root = 0.5 * (lo + hi);
+            let e = roots.iter().fold(f64::MAX, |m, r| m.min((r - root).abs()));
+            let kind = if prev < 0.0 { "minimum_of_distance" } else { "maximum_of_distance" };
+            cx.stats.count(&format!("quintic.sign_change.{}.{}", kind, if e <= 1e-9 { "returned_within_1e-9" } else if e <= 1e-6 { "returned_within_1e-6" } else if e <= 1e-3 { "returned_within_1e-3" } else { "NOT_RETURNED" }));
+        }
+        prev = cur;
+    }
+    if roots.iter().any(|r| !(*r >= 0.0 && *r <= 1.0)) { cx.stats.count("quintic.returned_value_outside_unit_range"); }
+}
+
 /// one nearest_t query with all the curve-level checks; returns false when the call was not run (hang budget)
 fn check_query(cx: &mut Ctx, w: &Cub, q: Coord2, cclass: &str, qclass: &str) -> bool {
     let desc = format!("curve={} class={} query={:?} query_class={}", fmt_cub(w), cclass, q, qclass);
@@ -72,10 +107,11 @@ fn check_query(cx: &mut Ctx, w: &Cub, q: Coord2, cclass: &str, qclass: &str) -> 
         let d = dist(eval(w, t), q);
         cx.stats.count(if d <= bd + 1e-9 { "result.optimal_to_1e-9" } else if d <= bd + TOL { "result.within_tolerance" } else { "result.not_minimum" });
         // bd is attained at parameter bt of the same curve, so d > bd + TOL is a witness against the global minimum
-        if d > bd + TOL {
+        if gt(d, bd + TOL) {
             cx.stats.fail("C09", &format!("nearest.not_global_minimum.{}.{}", cclass, qclass), &format!("{} nearest_t={:?} distance={:?} but t={:?} has distance={:?} (excess {:e})", desc, t, d, bt, bd, d - bd));
         }
     }
+    measure_root_completeness(cx, w, q);
     // nearest_point and distance_to (nearest_t returned on this input, so these return too)
     let c = lib_curve(w);
     match catch(|| (c.nearest_point(&q), c.distance_to(&q), c.point_at_pos(t))) {
@@ -156,7 +192,7 @@ fn check_path(cx: &mut Ctx, rng: &mut Rng) {
     if !(dist(on, pt) <= 1e-9) || !((d - dist(pt, q)).abs() <= 1e-9) {
         cx.stats.fail("C09", "path_closest_point.index_param_mismatch", &format!("{} result=({}, {:?}, {:?}, {:?}) but curve {} at t is {:?}, |point-query|={:?}", desc, idx, t, d, pt, idx, on, dist(pt, q)));
     }
-    if dist(on, q) > brute[bi].1 + TOL {
+    if gt(dist(on, q), brute[bi].1 + TOL) {
         cx.stats.fail("C09", "path_closest_point.not_minimum", &format!("{} result=({}, {:?}, {:?}, {:?}) but curve {} at t={:?} has distance {:?}", desc, idx, t, d, pt, bi, brute[bi].0, brute[bi].1));
     }
 }
@@ -187,4 +223,163 @@ pub fn search(seed: u64, n: u64) {
     cx.stats.add("abandoned_threads", abandoned_threads());
     cx.stats.print("C09", "search");
     finish();
+}
+
+// ------------------------------------------------------------------------------------------------ correspondence
+// Transcript for the Lean driver (lean/FloVerif/Driver/C09.lean). Everything on stream R is compared bit for bit with the
+// Float instance of the generated definitions (Gen.Roots, Gen.Nearest) and of the hand model of distance_in_bezier_form:
+//   C09 roots R #N x0 y0 … | #k r0 …           flo_curves::bezier::roots::find_bezier_roots::<Coord2, N>
+//   C09 nearest R w1 w2 w3 w4 q | t px py d     nearest_point_on_curve_bezier_root_finder, nearest_t, nearest_point, distance_to
+//   C09 path R #n (w1 w2 w3 w4)* q | #idx t d px py   path_closest_point
+//   C09 quintic R w1 w2 w3 w4 q | x0 y0 … x5 y5  distance_in_bezier_form (only with the hook hooks/C09_distance_in_bezier_form.diff)
+use flo_curves::bezier::roots::{find_bezier_roots, nearest_point_on_curve_bezier_root_finder, polynomial_to_bezier};
+
+fn hx2(p: Coord2) -> String { format!("{} {}", hx(p.0), hx(p.1)) }
+fn hxw(w: &Cub) -> String { format!("{} {} {} {}", hx2(w[0]), hx2(w[1]), hx2(w[2]), hx2(w[3])) }
+
+fn roots_n<const N: usize>(pts: &[Coord2]) -> Vec<f64> {
+    let mut a = [Coord2(0.0, 0.0); N];
+    for k in 0..N { a[k] = pts[k]; }
+    find_bezier_roots::<Coord2, N>(a).into_iter().collect()
+}
+
+fn roots_dyn(pts: &[Coord2]) -> Vec<f64> {
+    match pts.len() {
+        2 => roots_n::<2>(pts), 3 => roots_n::<3>(pts), 4 => roots_n::<4>(pts), 5 => roots_n::<5>(pts),
+        6 => roots_n::<6>(pts), 7 => roots_n::<7>(pts), 8 => roots_n::<8>(pts), 9 => roots_n::<9>(pts),
+        _ => panic!("roots_dyn: unsupported number of control points"),
+    }
+}
+
+fn poly_n<const N: usize>(c: &[f64]) -> Vec<Coord2> {
+    let mut a = [0.0; N];
+    for k in 0..N { a[k] = c[k]; }
+    polynomial_to_bezier::<Coord2, N>(a).to_vec()
+}
+
+/// control polygon of the monic polynomial with the given roots, times `scale` (x = k/(N-1))
+fn polygon_with_roots(roots: &[f64], scale: f64) -> Vec<Coord2> {
+    let mut c = vec![scale];
+    for r in roots {
+        // c(x) * (x - r)
+        let mut d = vec![0.0; c.len() + 1];
+        for (i, v) in c.iter().enumerate() { d[i + 1] += *v; d[i] -= *v * *r; }
+        c = d;
+    }
+    match c.len() {
+        2 => poly_n::<2>(&c), 3 => poly_n::<3>(&c), 4 => poly_n::<4>(&c), 5 => poly_n::<5>(&c),
+        6 => poly_n::<6>(&c), 7 => poly_n::<7>(&c), 8 => poly_n::<8>(&c), 9 => poly_n::<9>(&c),
+        _ => panic!("polygon_with_roots: unsupported degree"),
+    }
+}
+
+pub const POLYGON_CLASSES: [&str; 17] = ["steep_end_then_level", "random", "random", "roots_inside", "roots_inside_and_outside", "double_root", "triple_root", "root_at_0_or_1", "all_zero",
+    "one_sign", "zero_coefficients", "monotone_one_crossing", "tiny", "huge", "dyadic", "x_range_not_unit", "nearly_flat_many_crossings"];
+
+pub fn gen_polygon(rng: &mut Rng, class: &str) -> Vec<Coord2> {
+    // the nearest-point query uses N = 6; the function itself is generic
+    let n = if rng.i(3) == 0 { 2 + rng.i(8) as usize } else { 6 };
+    let unit = |ys: Vec<f64>| -> Vec<Coord2> { let n = ys.len(); ys.iter().enumerate().map(|(k, y)| Coord2(k as f64 / (n - 1) as f64, *y)).collect() };
+    match class {
+        "roots_inside" => { let rs: Vec<f64> = (0..n - 1).map(|_| rng.f()).collect(); polygon_with_roots(&rs, rng.r(0.5, 50.0)) }
+        "roots_inside_and_outside" => { let rs: Vec<f64> = (0..n - 1).map(|_| rng.r(-1.0, 2.0)).collect(); polygon_with_roots(&rs, rng.r(0.5, 50.0)) }
+        "double_root" => { if n < 3 { return unit(vec![0.0; n]); } let r = if rng.b() { rng.dyadic(0, 1, 8) } else { rng.f() }; let mut rs = vec![r, r]; for _ in 2..n - 1 { rs.push(rng.r(-1.0, 2.0)); } polygon_with_roots(&rs, rng.r(0.5, 50.0)) }
+        "triple_root" => { if n < 4 { return unit(vec![0.0; n]); } let r = if rng.b() { rng.dyadic(0, 1, 8) } else { rng.f() }; let mut rs = vec![r, r, r]; for _ in 3..n - 1 { rs.push(rng.r(-1.0, 2.0)); } polygon_with_roots(&rs, rng.r(0.5, 50.0)) }
+        "root_at_0_or_1" => { let mut ys: Vec<f64> = (0..n).map(|_| rng.r(-1.0, 1.0)).collect(); if rng.b() { ys[0] = 0.0; } else { ys[n - 1] = 0.0; } if rng.i(4) == 0 { ys[0] = 0.0; ys[n - 1] = 0.0; } unit(ys) }
+        "all_zero" => unit(vec![if rng.b() { 0.0 } else { -0.0 }; n]),
+        "one_sign" => { let s = if rng.b() { 1.0 } else { -1.0 }; unit((0..n).map(|_| s * rng.r(1e-6, 1.0)).collect()) }
+        "zero_coefficients" => unit((0..n).map(|_| match rng.i(4) { 0 => 0.0, 1 => -0.0, 2 => rng.r(-1.0, 0.0), _ => rng.r(0.0, 1.0) }).collect()),
+        "monotone_one_crossing" => { let mut ys: Vec<f64> = (0..n).map(|_| rng.r(-1.0, 1.0) * 10f64.powf(rng.r(-3.0, 1.0))).collect(); ys.sort_by(|a, b| a.partial_cmp(b).unwrap()); if rng.b() { ys.reverse(); } unit(ys) }
+        "tiny" => unit((0..n).map(|_| rng.r(-1.0, 1.0) * 1e-12).collect()),
+        "huge" => unit((0..n).map(|_| rng.r(-1.0, 1.0) * 1e9).collect()),
+        "dyadic" => unit((0..n).map(|_| rng.dyadic(-4, 4, 16)).collect()),
+        "x_range_not_unit" => { let (a, b) = (rng.r(-5.0, 5.0), rng.r(0.1, 10.0)); (0..n).map(|k| Coord2(a + b * k as f64 / (n - 1) as f64, rng.r(-1.0, 1.0))).collect() }
+        // one huge ordinate at an end, the others level (half of the cases exactly) on the other side of the axis: monotone, one crossing; flat_enough measures
+        // max(0, signed distance), so one of the two mirror images passes as flat and Newton starts far from the zero
+        "steep_end_then_level" => { let big = -10f64.powf(rng.r(0.5, 4.0)); let mut ys: Vec<f64> = vec![big]; let mut y = rng.r(0.0, 1.0); let level = rng.b(); for _ in 1..n { ys.push(y); if !level { y += rng.r(0.0, 0.3); } } if rng.b() { ys.reverse(); } if rng.b() { for v in ys.iter_mut() { *v = -*v; } } unit(ys) }
+        "nearly_flat_many_crossings" => unit((0..n).map(|k| (if k % 2 == 0 { 1.0 } else { -1.0 }) * rng.r(0.0, 0.05)).collect()),
+        _ => unit((0..n).map(|_| rng.r(-1.0, 1.0)).collect()),
+    }
+}
+
+fn corr_roots(stats: &mut Stats, rng: &mut Rng) {
+    let class = POLYGON_CLASSES[rng.i(POLYGON_CLASSES.len() as u64) as usize];
+    let pts = gen_polygon(rng, class);
+    let roots = roots_dyn(&pts);
+    let mut line = format!("C09 roots R #{}", pts.len());
+    for p in &pts { line += &format!(" {}", hx2(*p)); }
+    line += &format!(" | #{}", roots.len());
+    for r in &roots { line += &format!(" {}", hx(*r)); }
+    stats.case(&line, !roots.is_empty());
+    stats.count(&format!("roots.class.{}", class));
+    stats.count(&format!("roots.N{}", pts.len()));
+    stats.count(&format!("roots.returned{}", roots.len().min(6)));
+    if roots.iter().any(|r| !(*r >= 0.0 && *r <= 1.0)) && pts[0].0 == 0.0 && pts[pts.len() - 1].0 == 1.0 { stats.count(&format!("roots.value_outside_unit_range.{}", class)); }
+    println!("{}", line);
+}
+
+fn corr_nearest(stats: &mut Stats, rng: &mut Rng) {
+    let cclass = CURVE_CLASSES[rng.i(CURVE_CLASSES.len() as u64) as usize];
+    let mut w = gen_class(rng, cclass);
+    // one in eight curves on a dyadic grid (exactly representable products in the quintic)
+    let dy = rng.i(8) == 0;
+    if dy { for p in w.iter_mut() { *p = Coord2((p.0 * 4.0).round() / 4.0, (p.1 * 4.0).round() / 4.0); } }
+    let qclass = QUERY_CLASSES[rng.i(QUERY_CLASSES.len() as u64) as usize];
+    let mut q = gen_query(rng, &w, qclass);
+    if dy { q = Coord2((q.0 * 4.0).round() / 4.0, (q.1 * 4.0).round() / 4.0); }
+    if !finite2(q) { q = Coord2(50.0, 50.0); }
+    let c = lib_curve(&w);
+    let t = nearest_point_on_curve_bezier_root_finder(&c, &q);
+    let t2 = c.nearest_t(&q);
+    let p = c.nearest_point(&q);
+    let d = c.distance_to(&q);
+    let line = format!("C09 nearest R {} {} | {} {} {} {}", hxw(&w), hx2(q), hx(t), hx(t2), hx2(p), hx(d));
+    stats.case(&line, t > 0.0 && t < 1.0);
+    stats.count(&format!("nearest.curve.{}", cclass));
+    stats.count(&format!("nearest.query.{}", qclass));
+    stats.count(if t == 0.0 { "nearest.result.t=0" } else if t == 1.0 { "nearest.result.t=1" } else { "nearest.result.interior" });
+    if dy { stats.count("nearest.dyadic_grid"); }
+    println!("{}", line);
+    #[cfg(feature = "hook_c09_quintic")]
+    {
+        let quintic = flo_curves::bezier::roots::verif_distance_in_bezier_form(&c, &q);
+        let mut line = format!("C09 quintic R {} {} |", hxw(&w), hx2(q));
+        for p in quintic.iter() { line += &format!(" {}", hx2(*p)); }
+        stats.case(&line, true);
+        stats.count("quintic");
+        println!("{}", line);
+    }
+}
+
+fn corr_path(stats: &mut Stats, rng: &mut Rng) {
+    let (curves, _classes) = gen_path(rng, &[]);
+    // now and then the empty path (no curves at all)
+    let empty = rng.i(40) == 0;
+    let which = rng.i(curves.len() as u64) as usize;
+    let qclass = ["box", "on_curve", "near_curve", "far_outside", "equidistant_two_branches", "at_end_point"][rng.i(6) as usize];
+    let q = if qclass == "equidistant_two_branches" && curves.len() > 1 {
+        let (a, b) = (eval(&curves[0], rng.f()), eval(&curves[curves.len() - 1], rng.f()));
+        let d = b - a; (a + b) * 0.5 + Coord2(-d.1, d.0) * rng.r(-0.5, 0.5)
+    } else { gen_query(rng, &curves[which], qclass) };
+    let q = if finite2(q) { q } else { Coord2(50.0, 50.0) };
+    let path: SimpleBezierPath = if empty { (curves[0][0], vec![]) } else { (curves[0][0], curves.iter().map(|w| (w[1], w[2], w[3])).collect()) };
+    // the curves as the library itself sees them
+    let seen: Vec<Curve<Coord2>> = path.to_curves();
+    let (idx, t, d, p) = path_closest_point(&path, &q);
+    let mut line = format!("C09 path R #{}", seen.len());
+    for c in seen.iter() { line += &format!(" {}", hxw(&cub_of(c))); }
+    line += &format!(" {} | #{} {} {} {}", hx2(q), idx, hx(t), hx(d), hx2(p));
+    stats.case(&line, seen.len() > 1);
+    stats.count(&format!("path.curves{}", seen.len()));
+    stats.count(&format!("path.query.{}", qclass));
+    println!("{}", line);
+}
+
+pub fn corr(seed: u64, n: u64) {
+    let mut rng = Rng(seed ^ 0xC09C);
+    let mut stats = Stats::new();
+    for it in 0..n {
+        match it % 5 { 0 | 1 => corr_nearest(&mut stats, &mut rng), 2 | 3 => corr_roots(&mut stats, &mut rng), _ => corr_path(&mut stats, &mut rng) }
+    }
+    stats.print("C09", "corr");
 }
